@@ -1,6 +1,7 @@
 """C08 - program accounts are admitted iff owner and discriminant match."""
 ID = "C08"
 ENTRY = "c08"
+GROUP = "acct"
 BIN = "vh_c08"
 COQ_TARGETS = ["Properties/C08.vo"]
 
